@@ -16,7 +16,8 @@ EXTENDS RGFA, TLC
 
 CONSTANTS MaxChrom, MaxUnits, Kinds, EndKinds, Defects, MaxDefects,
           MinUnits,   \* a chromosome is closed only with at least this many units
-          Pattern     \* <<>>: any kind at any position; otherwise the k-th unit has kind Pattern[k] (long chains without blow-up)
+          Pattern,    \* <<>>: any kind at any position; otherwise the k-th unit has kind Pattern[k] (long chains without blow-up)
+          Wholes      \* whole chromosomes of a special shape: "single" (one segment, no link), "ring" (circular contig: a defect)
 VARIABLES nodes,     \* set of [id, sn, so, ln, sr]
           links,     \* set of [a, ao, b, bo]   (GFA L lines)
           chroms,    \* sequence of [name, elems, bad]; elems = sequence of [k |-> "s" / "b", ns |-> node id set]
@@ -89,7 +90,12 @@ Unit(k) ==
 
 End(ek) ==
   /\ cur.open /\ cur.units >= MinUnits
-  /\ IF ek = "tip"
+  /\ IF ek = "alttip"      \* the chain ends in a segment of ANOTHER contig (rank 1) whose offset there (0) is below every reference offset
+     THEN /\ nodes' = nodes \cup {AltNode(cnt, cur.name)}
+          /\ links' = links \cup {L(cur.last, "+", Id(cnt), "+")}
+          /\ chroms' = Append(chroms, [name |-> cur.name, bad |-> cur.bad, elems |-> cur.elems \o <<[k |-> "b", ns |-> {Id(cnt)}]>>])
+          /\ cnt' = cnt + 1
+     ELSE IF ek = "tip"
      THEN /\ nodes' = nodes \cup {RefNode(cnt, cur.name, cur.off)}
           /\ links' = links \cup {L(cur.last, "+", Id(cnt), "+")}
           /\ chroms' = Append(chroms, [name |-> cur.name, bad |-> cur.bad, elems |-> cur.elems \o <<[k |-> "b", ns |-> {Id(cnt)}]>>])
@@ -103,6 +109,21 @@ End(ek) ==
 
 (* defects that make the collapsed graph a non-chain (C18).  Applied to the chromosome under construction. *)
 NBad == Cardinality({k \in 1..Len(chroms) : chroms[k].bad}) + (IF cur.bad THEN 1 ELSE 0)
+(* whole chromosomes of a special shape *)
+Whole(w) ==
+  /\ ~cur.open /\ Len(chroms) < MaxChrom
+  /\ LET c == ChrName(Len(chroms) + 1) IN
+     IF w = "single"       \* a contig that is one segment without any link (chrM, an unplaced contig): a chain of one scaffold node
+     THEN /\ nodes' = nodes \cup {RefNode(cnt, c, 0)} /\ links' = links
+          /\ chroms' = Append(chroms, [name |-> c, bad |-> FALSE, elems |-> <<[k |-> "s", ns |-> {Id(cnt)}]>>])
+          /\ cnt' = cnt + 1
+     ELSE                  \* "ring": a circular contig stored with its closing link - no articulation point at all, not a chain
+          /\ NBad < MaxDefects
+          /\ nodes' = nodes \cup {RefNode(cnt, c, 0), RefNode(cnt + 1, c, 2), RefNode(cnt + 2, c, 4)}
+          /\ links' = links \cup {L(Id(cnt), "+", Id(cnt + 1), "+"), L(Id(cnt + 1), "+", Id(cnt + 2), "+"), L(Id(cnt + 2), "+", Id(cnt), "+")}
+          /\ chroms' = Append(chroms, [name |-> c, bad |-> TRUE, elems |-> <<[k |-> "s", ns |-> {Id(cnt), Id(cnt + 1), Id(cnt + 2)}]>>])
+          /\ cnt' = cnt + 3
+  /\ UNCHANGED cur
 Defect(d) ==
   /\ cur.open /\ ~cur.bad /\ cur.units >= 1 /\ NBad < MaxDefects
   /\ CASE d = "branch" ->      \* a tip hanging off the current (middle) scaffold node: it gets degree 3 in the collapsed graph
@@ -136,7 +157,8 @@ Defect(d) ==
   /\ cur' = [cur EXCEPT !.bad = TRUE]
   /\ UNCHANGED chroms
 
-BNext == (\E ek \in EndKinds : Start(ek) \/ End(ek)) \/ (\E k \in Kinds : Unit(k)) \/ (\E d \in Defects : Defect(d))
+BNext == (\E ek \in EndKinds \cap {"tip", "endsnp"} : Start(ek)) \/ (\E ek \in EndKinds : End(ek)) \/ (\E k \in Kinds : Unit(k))
+         \/ (\E d \in Defects : Defect(d)) \/ (\E w \in Wholes : Whole(w))
 BSpec == BInit /\ [][BNext]_bvars
 
 -----------------------------------------------------------------------------
@@ -150,7 +172,9 @@ ConstructionOK ==
   \A k \in 1..Len(chroms) : ~chroms[k].bad =>
      LET ch == chroms[k]
          d == Decomp(NodesOf(ch), Edges(RLinks))
-     IN /\ d.artic = Scaffolds(ch)                                   \* scaffold nodes are exactly the articulation points
+     IN IF Cardinality(NodesOf(ch)) = 1 THEN ch.elems = <<[k |-> "s", ns |-> NodesOf(ch)]>>      \* the rule for a one-segment contig
+        ELSE
+        /\ d.artic = Scaffolds(ch)                                   \* scaffold nodes are exactly the articulation points
         /\ {B \ d.artic : B \in d.blocks} \ {{}} = BubblesOf(ch)      \* bubbles are the blocks minus articulation points
         /\ NodesOf(ch) \in CompsOf({n.id : n \in nodes}, Edges(RLinks))  \* each chromosome is one connected component
 
